@@ -42,6 +42,7 @@ func concurrentServerSide(r *vkit.R, g *vkit.Rand) {
 	}
 	flips := r.N(400, 4000)
 	var stop int32
+	var completed int64 // calls that have returned
 	var wg sync.WaitGroup
 	// traffic
 	for w := 0; w < 6; w++ {
@@ -75,6 +76,7 @@ func concurrentServerSide(r *vkit.R, g *vkit.Rand) {
 					}
 				})
 				w1 := atomic.LoadInt64(&words[s])
+				atomic.AddInt64(&completed, 1)
 				if w0 != w1 || w0&2 != 0 {
 					r.Count("conc_calls_overlapping_a_change", 1)
 					continue
@@ -128,7 +130,16 @@ func concurrentServerSide(r *vkit.R, g *vkit.Rand) {
 			atomic.StoreInt64(&words[s], (w/4+1)*4+1)
 		}
 		r.Count("conc_leadership_changes", 1)
-		time.Sleep(time.Duration(100+g.Intn(400)) * time.Microsecond) // lets calls run inside the new state; not a verdict
+		// Progress, not time: the next change waits until 8 more calls have returned. At most 6 of them (one per caller) can have
+		// started before this change was published, so at least 2 calls ran entirely inside the new state - on any machine load.
+		c0 := atomic.LoadInt64(&completed)
+		if !vkit.WaitFor(30*time.Second, func() bool { return atomic.LoadInt64(&completed) >= c0+8 }) {
+			r.Inconclusive("concurrent server side: callers made no progress within the watchdog")
+			break
+		}
+		if g.Chance(0.5) {
+			time.Sleep(time.Duration(g.Intn(300)) * time.Microsecond) // varies how many calls a state sees; not a verdict
+		}
 	}
 	atomic.StoreInt32(&stop, 1)
 	wg.Wait()
